@@ -108,3 +108,46 @@ PLANS["C11"] = {
         "order is required only between errors of the same source (row, table, callback registration, container call)",
     ],
 }
+
+ALLOWN = '{"table", "row", "cell", "cellvar", "column", "handle"}'
+
+
+class Raw(str):
+    """A constant written into the cfg verbatim (TLA+ set/expression)."""
+
+
+PLANS["C12"] = {
+    "facets": "props",
+    "own": ["props", "res.setprop"],
+    "mc": [{
+        "module": "MCProps",
+        "quick": dict(OwnerKinds=Raw(ALLOWN), Keys=Raw('{"k_int", "k_int64"}'), Vals=Raw('{"v1", "v2", "nil"}'), MaxHist=6, MaxCopies=1),
+        "thorough": dict(OwnerKinds=Raw(ALLOWN), Keys=Raw('{"k_int", "k_int64", "k_str"}'), Vals=Raw('{"v1", "v2", "nil"}'), MaxHist=6, MaxCopies=2),
+        "properties": ["Independence"],
+    }],
+    "random": [{"gen": gens.gen_props}],
+    "min_scenarios": {"quick": 5000, "thorough": 50000},
+    "assumptions": [
+        "key universe of the driver: int/int64/uint8/string/named string with equal values, two struct types with equal fields, two pointers to equal values, the library's own align and skipable keys",
+        "chain length is read from the %#v debug form of cells (number of printed links)",
+    ],
+}
+
+
+def _cbmc(shape, q, t):
+    return {"module": "MCCallbacks",
+            "quick": dict(Shape=shape, MaxCbs=q, MaxPasses=2),
+            "thorough": dict(Shape=shape, MaxCbs=t, MaxPasses=2)}
+
+
+PLANS["C13"] = {
+    "facets": "props",
+    "own": ["props", "res.cblog", "res.regerr"],
+    "mc": [_cbmc("empty", 2, 2), _cbmc("hdr", 1, 2), _cbmc("one", 2, 2), _cbmc("built", 1, 2), _cbmc("full", 1, 2)],
+    "random": [{"gen": gens.gen_callbacks}],
+    "min_scenarios": {"quick": 3000, "thorough": 50000},
+    "assumptions": [
+        "events on which the statement is silent (header row, column 0, separators, add-time events of AddHeaders and of late cells, (time,target) pairs no slot mentions) are optional: at most once, in slot order",
+        "the recording callback identifies its target by pointer identity through the public API after the call returns",
+    ],
+}
